@@ -36,11 +36,13 @@ type fileConf struct {
 	Imports    bool              `json:"imports"`
 	Chans      bool              `json:"chans"`
 	RangeChans []string          `json:"rangeChans"`
+	RangeMaps  []string          `json:"rangeMaps"` // `for k, v := range <expr>` over a map -> deterministic sorted iteration
 	YieldFuncs string            `json:"yieldFuncs"`
 	Consts     map[string]string `json:"consts"`
 	ConstToVar []string          `json:"constToVar"` // turn `const x = …` into `var x = …` (scaled-model knobs)
 	KeepTime   bool              `json:"keepTime"` // do not rewrite "time"
 	KeepRand   bool              `json:"keepRand"`
+	Log        bool              `json:"log"` // rewrite "log" to the vlog shim (Fatal* panics instead of exiting)
 }
 
 type conf struct {
@@ -107,6 +109,7 @@ type rewriter struct {
 	usesSched bool
 	recv2     map[*ast.UnaryExpr]bool
 	rangeSet  map[string]bool
+	mapSet    map[string]bool
 	err       error
 }
 
@@ -116,9 +119,12 @@ func instrumentFile(path string, fc fileConf) ([]byte, error) {
 	if err != nil {
 		return nil, err
 	}
-	rw := &rewriter{fset: fset, fc: fc, recv2: map[*ast.UnaryExpr]bool{}, rangeSet: map[string]bool{}}
+	rw := &rewriter{fset: fset, fc: fc, recv2: map[*ast.UnaryExpr]bool{}, rangeSet: map[string]bool{}, mapSet: map[string]bool{}}
 	for _, r := range fc.RangeChans {
 		rw.rangeSet[r] = true
+	}
+	for _, r := range fc.RangeMaps {
+		rw.mapSet[r] = true
 	}
 	// keep only directive comments and those before the package clause
 	var keep []*ast.CommentGroup
@@ -144,7 +150,7 @@ func instrumentFile(path string, fc fileConf) ([]byte, error) {
 			return nil, fmt.Errorf("constToVar: single-name const %q not found", name)
 		}
 	}
-	if fc.Chans {
+	if fc.Chans || len(fc.RangeMaps) > 0 {
 		for _, d := range f.Decls {
 			if fd, ok := d.(*ast.FuncDecl); ok && fd.Body != nil {
 				rw.block(fd.Body)
@@ -210,6 +216,9 @@ func (rw *rewriter) rewriteImports(f *ast.File) {
 	m := map[string][2]string{
 		`"sync"`:        {"sync", shimBase + "vsync"},
 		`"sync/atomic"`: {"atomic", shimBase + "vatomic"},
+	}
+	if rw.fc.Log {
+		m[`"log"`] = [2]string{"log", shimBase + "vlog"}
 	}
 	if !rw.fc.KeepTime {
 		m[`"time"`] = [2]string{"time", shimBase + "vtime"}
@@ -374,7 +383,7 @@ func (rw *rewriter) expr(e ast.Expr) ast.Expr {
 		return x
 	case *ast.UnaryExpr:
 		x.X = rw.expr(x.X)
-		if x.Op == token.ARROW {
+		if x.Op == token.ARROW && rw.fc.Chans {
 			rw.usesSched = true
 			if rw.recv2[x] {
 				return call(sched("Recv2"), x.X)
@@ -384,7 +393,7 @@ func (rw *rewriter) expr(e ast.Expr) ast.Expr {
 		return x
 	case *ast.CallExpr:
 		rw.walk(reflect.ValueOf(x).Elem())
-		if id, ok := x.Fun.(*ast.Ident); ok && id.Name == "close" && len(x.Args) == 1 {
+		if id, ok := x.Fun.(*ast.Ident); ok && id.Name == "close" && len(x.Args) == 1 && rw.fc.Chans {
 			rw.usesSched = true
 			return call(sched("Close"), x.Args[0])
 		}
@@ -424,8 +433,11 @@ func (rw *rewriter) stmt(st ast.Stmt) ast.Stmt {
 	case *ast.SendStmt:
 		x.Chan = rw.expr(x.Chan)
 		x.Value = rw.expr(x.Value)
+		if !rw.fc.Chans {
+			return x
+		}
 		rw.usesSched = true
-		return &ast.ExprStmt{X: call(sched("Send"), x.Chan, x.Value)}
+		return &ast.ExprStmt{X: call(&ast.SelectorExpr{X: call(sched("To"), x.Chan), Sel: ast.NewIdent("Send")}, x.Value)}
 	case *ast.AssignStmt:
 		if len(x.Lhs) == 2 && len(x.Rhs) == 1 {
 			if u, ok := x.Rhs[0].(*ast.UnaryExpr); ok && u.Op == token.ARROW {
@@ -435,11 +447,19 @@ func (rw *rewriter) stmt(st ast.Stmt) ast.Stmt {
 		rw.walk(reflect.ValueOf(x).Elem())
 		return x
 	case *ast.GoStmt:
+		if !rw.fc.Chans {
+			rw.walk(reflect.ValueOf(x).Elem())
+			return x
+		}
 		return rw.goStmt(x)
 	case *ast.SelectStmt:
+		if !rw.fc.Chans {
+			rw.walk(reflect.ValueOf(x).Elem())
+			return x
+		}
 		return rw.selectStmt(x, nil)
 	case *ast.LabeledStmt:
-		if sel, ok := x.Stmt.(*ast.SelectStmt); ok {
+		if sel, ok := x.Stmt.(*ast.SelectStmt); ok && rw.fc.Chans {
 			return rw.selectStmt(sel, x.Label)
 		}
 		x.Stmt = rw.stmt(x.Stmt)
@@ -451,6 +471,9 @@ func (rw *rewriter) stmt(st ast.Stmt) ast.Stmt {
 			rw.rangeSet[t] = false // matched
 			rw.usesSched = true
 			x.X = call(sched("Range"), x.X)
+		} else if rw.mapSet[t] {
+			rw.usesSched = true
+			x.X = call(sched("SortedMap"), x.X)
 		}
 		rw.block(x.Body)
 		return x
@@ -554,7 +577,7 @@ func (rw *rewriter) selectStmt(sel *ast.SelectStmt, label *ast.Ident) ast.Stmt {
 		var mk ast.Expr
 		switch c := cc.Comm.(type) {
 		case *ast.SendStmt:
-			mk = call(sched("SendCase"), rw.expr(c.Chan), rw.expr(c.Value))
+			mk = call(&ast.SelectorExpr{X: call(sched("To"), rw.expr(c.Chan)), Sel: ast.NewIdent("Case")}, rw.expr(c.Value))
 		case *ast.ExprStmt: // case <-ch:
 			u, ok := c.X.(*ast.UnaryExpr)
 			if !ok || u.Op != token.ARROW {
